@@ -1,5 +1,6 @@
 import ShredModel.Model.Builder
 import ShredModel.Lemmas.Scenario
+import ShredModel.Lemmas.AddGlue
 /-!
 # C18 (rejections): `add` panics exactly on the two ill-formed registrations
 
@@ -185,9 +186,38 @@ theorem C18_target_in_bounds (dep : List Nat) (d : Decl) :
 end Scenario
 end Shred
 
+
+namespace Shred
+
+/-- **C18 (every builder state is covered).** Whatever sequence of `add` calls — accepted or
+rejected — and barriers produced a `DispatcherBuilder`, its tables are those of a registration
+`Scenario` up to an injective renumbering of ids and the caller's tagging; so the `Scenario`
+theorems of C01–C04, C10, C18, C20 speak about it. -/
+theorem C18_every_builder_is_a_scenario (bops : List BOp) :
+    ∃ (sc : Scenario) (σ : Nat → Nat) (τ : Nat → SysTag), (∀ a b, σ a = σ b → a = b) ∧
+      let b := (bops.foldl BOp.step {}).stagesBuilder
+      b.ids = mapIds σ sc.final.b.ids ∧ b.stages = mapT τ sc.final.b.stages ∧
+      b.reads = sc.final.b.reads ∧ b.writes = sc.final.b.writes ∧
+      b.runningTime = sc.final.b.runningTime ∧ b.barrier = sc.final.b.barrier :=
+  builder_is_scenario bops
+
+/-- **C18 (no capacity panic, for every builder).** -/
+theorem C18_group_capacity_any_builder (bops : List BOp) (st : List (List SysTag))
+    (hst : st ∈ (bops.foldl BOp.step {}).stagesBuilder.stages) (g : List SysTag) (hg : g ∈ st) :
+    1 ≤ g.length ∧ g.length < maxSystemsPerGroup := by
+  obtain ⟨sc, σ, τ, _, _, hstages, _⟩ := builder_is_scenario bops
+  rw [hstages] at hst
+  obtain ⟨st0, hst0, rfl⟩ := List.mem_map.mp hst
+  obtain ⟨g0, hg0, rfl⟩ := List.mem_map.mp hg
+  simpa using sc.C18_group_capacity st0 hst0 g0 hg0
+
+end Shred
+
 #print axioms Shred.DispatcherBuilder.add_ok
 #print axioms Shred.DispatcherBuilder.resolve_error_iff
 #print axioms Shred.DispatcherBuilder.add_panics_iff
 #print axioms Shred.Scenario.C18_group_capacity
 #print axioms Shred.Scenario.C18_running_time_bound
 #print axioms Shred.Scenario.C18_target_in_bounds
+#print axioms Shred.C18_every_builder_is_a_scenario
+#print axioms Shred.C18_group_capacity_any_builder
